@@ -125,6 +125,37 @@ impl Matrix {
         let kernel = rows.iter().find(|(v, c)| v.is_zero() && !c.is_zero()).map(|(_, c)| *c);
         (rank, kernel)
     }
+    /// some x with self·x = target (None if the system is inconsistent)
+    pub fn solve(&self, target: &Bits) -> Option<Bits> {
+        // eliminate on the columns (images of basis vectors), tracking combinations
+        let mut rows: Vec<(Bits, Bits)> = self.cols.iter().enumerate().map(|(i, c)| (*c, Bits::unit(i))).collect();
+        let mut t = *target;
+        let mut x = Bits::ZERO;
+        let mut rank = 0;
+        for bit in 0..self.n {
+            if let Some(p) = (rank..rows.len()).find(|&r| rows[r].0.get(bit)) {
+                rows.swap(rank, p);
+                let (pv, pc) = rows[rank];
+                for r in 0..rows.len() {
+                    if r != rank && rows[r].0.get(bit) {
+                        rows[r].0 = rows[r].0.xor(&pv);
+                        rows[r].1 = rows[r].1.xor(&pc);
+                    }
+                }
+                if t.get(bit) {
+                    t = t.xor(&pv);
+                    x = x.xor(&pc);
+                }
+                rank += 1;
+            }
+        }
+        if t.is_zero() {
+            Some(x)
+        } else {
+            None
+        }
+    }
+
     /// inverse (None if singular)
     pub fn inverse(&self) -> Option<Matrix> {
         let n = self.n;
